@@ -1626,7 +1626,7 @@ func (ms *MetricsSegment) FlushMetricNames() error {
 		return err
 	}
 
-	fd, err := os.OpenFile(filePath, os.O_WRONLY|os.O_CREATE, 0644)
+	fd, err := os.OpenFile(filePath, os.O_WRONLY|os.O_CREATE|os.O_TRUNC, 0644)
 	if err != nil {
 		log.Errorf("FlushMetricNames: failed to open filename=%v: err=%v", filePath, err)
 		return err
@@ -1653,6 +1653,23 @@ func (ms *MetricsSegment) FlushMetricNames() error {
 	}
 
 	return nil
+}
+
+// Adds the names of a metric names file to the map; stops at an entry that is cut short.
+func readFlushedMetricNames(filePath string, mNamesMap map[string]bool) {
+	buf, err := os.ReadFile(filePath)
+	if err != nil {
+		return
+	}
+	for i := 0; i+2 <= len(buf); {
+		mNameLen := int(utils.BytesToUint16LittleEndian(buf[i : i+2]))
+		i += 2
+		if i+mNameLen > len(buf) {
+			return
+		}
+		mNamesMap[string(buf[i:i+mNameLen])] = true
+		i += mNameLen
+	}
 }
 
 func (ms *MetricsSegment) updateTimeRange(ts uint32) {
@@ -2380,6 +2397,9 @@ func RecoverMNameWALData() {
 		}
 
 		if !isWalFileEmpty {
+			// A segment rotation that died after it had flushed the names left the complete names file next to
+			// the WAL, which may hold fewer names: the file is rewritten with the names of both.
+			readFlushedMetricNames(fmt.Sprintf("%s%d.mnm", ms.metricsKeyBase, ms.Suffix), ms.mNamesMap)
 			err := ms.FlushMetricNames()
 			if err != nil {
 				log.Warnf("RecoverMNameWALData :Failed to flush Metrics Name for shardID=%d, segID=%d,: %v",
